@@ -1179,6 +1179,7 @@ func init() {
 			c17Known(c17KeyOnlyValues, "redir", "range 100 | only-values >&-"),
 			c17Known(c17KeyByteReader, "redir", "range 100 | slurp"),
 			c17Known(c17KeyClosedRead, "redir", "count <&-"),
+			c17Known("C17:value-input-from-write-mode-file-port-hangs", "redir", "{ count <&1 } > new"),
 		},
 	})
 }
